@@ -1,77 +1,4 @@
-import TdModel.Model.C35
-import TdModel.Util
-open TdModel TdModel.C35
-
-namespace Drv35
-
-def hexNat? (s : String) : Option Nat :=
-  s.toList.foldlM (fun acc c => do pure (acc * 16 + (← hexVal c))) 0
-
-def parseChar (s : String) : Option Char := do
-  let n ← hexNat? s
-  if h : n.isValidChar then some (Char.ofNatAux n h) else none
-
-/-- `-` or dot-separated hex code points. -/
-def parseText (s : String) : Option (List Char) :=
-  if s == "-" then some [] else (s.splitOn ".").mapM parseChar
-
-def hexStr (n : Nat) : String := String.ofList (Nat.toDigits 16 n)
-
-def showText (t : List Char) : String :=
-  if t.isEmpty then "-" else ".".intercalate (t.map fun c => hexStr c.toNat)
-
-def parseFmt (s : String) : Option Fmt :=
-  if s.endsWith "l" then do pure { kind := (← (s.dropEnd 1).toString.toNat?), lang := true }
-  else do pure { kind := (← s.toNat?) }
-
-def parseFmts (s : String) : Option (List Fmt) :=
-  if s == "-" then some [] else (s.splitOn ".").mapM parseFmt
-
-def parseOp (s : String) : Option Op :=
-  match s.splitOn ":" with
-  | ["P", t] => do pure (.plain (← parseText t))
-  | ["W", t] => do pure (.write (← parseText t))
-  | ["F", t, f] => do pure (.format (← parseText t) (← parseFmts f))
-  | ["T"] => some .token
-  | ["A", k, f] => do pure (.apply (← k.toNat?) (← parseFmts f))
-  | ["S"] => some .shrink
-  | _ => none
-
-def showEnt (e : Ent) : String :=
-  s!"{e.off}:{e.len}:{e.kind}" ++ (if e.lang then "l" else "")
-
-def showEnts (l : List Ent) : String :=
-  if l.isEmpty then "-" else ",".intercalate (l.map showEnt)
-
-def parseEnt (s : String) : Option Ent :=
-  match s.splitOn ":" with
-  | [o, l, k] => do
-    let f ← parseFmt k
-    pure { off := (← o.toInt?), len := (← l.toInt?), kind := f.kind, lang := f.lang }
-  | _ => none
-
-def parseEnts (s : String) : Option (List Ent) :=
-  if s == "-" then some [] else (s.splitOn ",").mapM parseEnt
-
-def handle (line : String) : String :=
-  match words line with
-  | "run" :: ops => match ops.mapM parseOp with
-    | some ops => let r := complete (run ops); showText r.1 ++ " " ++ showEnts r.2
-    | none => "bad-op"
-  | "raw" :: ops => match ops.mapM parseOp with
-    | some ops => let s := run ops; showText s.text ++ " " ++ showEnts s.ents ++ " " ++ toString s.u16
-    | none => "bad-op"
-  | ["u16len", t] => match parseText t with
-    | some t => toString (u16len t)
-    | none => "bad-op"
-  | ["trim", t] => match parseText t with
-    | some t => showText (trimRight t)
-    | none => "bad-op"
-  | ["holds", t, es] => match parseText t, parseEnts es with
-    | some t, some es => if holds t es then "1" else "0"
-    | _, _ => "bad-op"
-  | _ => "bad-op"
-
-end Drv35
+import TdModel.Model.C35Proto
+open TdModel
 
 def main : IO Unit := runDriver Drv35.handle
